@@ -235,6 +235,7 @@ SAN = ["-fsanitize=address,undefined", "-fno-sanitize-recover=all", "-fno-omit-f
 HARNESSES = {
     "arith": dict(opt="-O1"),
     "literal": dict(opt="-O1"),
+    "file": dict(opt="-O1"),
     "stl": dict(opt="-O1", sanitize=True, compiler="clang++-14"),
 }
 
